@@ -80,7 +80,7 @@ THEOREMS = {
     "C17": _t("C17", "FlooVerif.C17.mkRange_wf", "FlooVerif.C17.mkRange_based", "FlooVerif.C17.setIdx_spec",
               "FlooVerif.C17.setIdx_unbased", "FlooVerif.C17.rejects_contradictory", "FlooVerif.C17.rejects_empty",
               "FlooVerif.C17.rejects_negative", "FlooVerif.C17.rejects_underspecified"),
-    "C18": _t("C18Tree", "FlooVerif.C18T.lvl_select_in", "FlooVerif.C18T.lvl_select_tree", "FlooVerif.C18T.level_of_tree", "FlooVerif.C18T.level_beyond", "FlooVerif.C18T.tree_nodes", "FlooVerif.C18T.tree_inTree") +
+    "C18": _t("C18Tree", "FlooVerif.C18T.lvl_select_in", "FlooVerif.C18T.lvl_select_tree", "FlooVerif.C18T.level_of_tree", "FlooVerif.C18T.level_beyond", "FlooVerif.C18T.tree_nodes", "FlooVerif.C18T.tree_inTree", "FlooVerif.C18T.other_tree_excluded") +
            _t("C18", "FlooVerif.C18.not_inTree_of_next") + _t("C18Names", "FlooVerif.C18N.name1_inj", "FlooVerif.C18N.name2_inj", "FlooVerif.C18N.split_unique") +
            _t("C18", "FlooVerif.C18.range_product", "FlooVerif.C18.range_error", "FlooVerif.C18.range_empty",
               "FlooVerif.C18.pyRange_eq_seqIncl", "FlooVerif.C18.idx_spec", "FlooVerif.C18.lvl_spec"),
